@@ -137,7 +137,9 @@ def cDraw : String := "asset.GetPairsVault(msg.ExtendedPairVaultId).DrawDownFee.
 def cDepDraw : String := "asset.GetPairsVault(msg.ExtendedPairVaultId).DrawDownFee.IsZero() && vault.calculateUserToken(vault.GetVault(msg.UserVaultId), msg.Amount).GT(0)"
 def cRepay : String := "msg.Amount.LTE(vault.GetVault(msg.UserVaultId).InterestAccumulated)"
 def cAmtPos : String := "msg.Amount.GT(0)"
-def cSwErr : String := "vault.GetAmountOfOtherToken(asset.GetAsset(asset.GetPair(asset.GetPairsVault(msg.ExtendedPairVaultId).PairId).AssetOut).Id, sdk.OneDec(), msg.Amount, asset.GetAsset(asset.GetPair(asset.GetPairsVault(msg.ExtendedPairVaultId).PairId).AssetIn).Id, sdk.OneDec())#3 != nil"
+/-- `_, tokenOutAmount, err := k.GetAmountOfOtherToken(ctx, assetOutData.Id, 1, msg.Amount, assetInData.Id, 1); if err != nil { return nil, nil }`
+(msg_server.go:1336-1339; long texts are printed head…hash of the whole text…tail by the extractor) -/
+def cSwErr : String := "vault.GetAmountOfOtherToken(asset.GetAsset(asset.GetPair(asset.GetPairsVault(msg.ExtendedPairVau…47de1cbb…VaultId).PairId).AssetIn).Id, sdk.OneDec())#3 != nil"
 def cSwUpd : String := "msg.Amount.Sub(sdk.NewDecFromInt(msg.Amount).Mul(asset.GetPairsVault(msg.ExtendedPairVaultId).DrawDownFee).TruncateInt()).GT(0)"
 
 /-! ## the regenerated skeletons, path by path (closed terms: kernel evaluation of the generated table) -/
